@@ -128,7 +128,7 @@ Section Main1.
       pose proof (IH2 ltac:(assumption) ltac:(assumption) flv _ _ C2) as P2.
       pose proof (IH3 ltac:(assumption) ltac:(assumption) flv _ _ C3) as P3.
       pose proof (IHb ltac:(assumption) ltac:(assumption) flv (slv + 1) _ _ C4) as P4.
-      pose proof (PieceE_swap W _ _ _ _ c1 c2 c3 L2 L3 P3 P2) as P32.
+      pose proof (PieceE_seq W _ _ _ _ c1 c2 c3 L2 L3 P2 P3) as P32.
       assert (L13 : c1 <= c3) by (clear - L2 L3; lia).
       pose proof (PieceE_seq W _ _ _ _ (hi W vl) c1 c3 L1 L13 P1 P32) as P132.
       assert (Hb : Born W c3 c3 (mkV n vl RNone false)).
